@@ -4,17 +4,13 @@
 //!   harness gen <scenario> --seed S --traces N --ops M     generate + execute
 //!   harness replay                                         execute op lines from stdin
 mod common;
-mod scen_cw20;
+mod registry;
+include!("scen_mods.rs");
 
 use common::{Rng, Scenario};
 use std::io::{BufRead, Write};
 
-fn make(name: &str) -> Option<Box<dyn Scenario>> {
-    match name {
-        "cw20" => Some(Box::new(scen_cw20::Cw20Scen::new())),
-        _ => None,
-    }
-}
+use registry::make;
 
 fn main() {
     // panics of the code under test are an outcome class, not noise on stderr
